@@ -72,8 +72,10 @@ def instances(tier, seed):
     # summary() / export() asked BEFORE any forward pass at the current coefficients, per-layer and per-channel weight search, and coefficients
     # written into a model that has already been evaluated (the sampled buffers are stale until the next forward pass)
     for wt in ('layer', 'channel'):
-        for order, hist in (('summary_first', None), ('summary_first', 'data'), ('fwd_first', 'data')):
-            if wt == 'layer' and order == 'fwd_first':
+        for order, hist in (('summary_first', None), ('summary_first', 'data'), ('fwd_first', 'data'), ('fwd_first', 'restored')):
+            if wt == 'layer' and order == 'fwd_first' and hist != 'restored':
+                continue
+            if wt == 'channel' and hist == 'restored':
                 continue
             out.append({'id': f'mps_model:{wt}:{order}' + (f':after_eval+{hist}' if hist else ''), 'what': 'model', 'wtype': wt, 'order': order, 'hist': hist})
     for hard, gumbel in ((True, False), (False, False), (True, True)) if tier == 'quick' else itertools.product([False, True], [False, True]):
@@ -548,6 +550,12 @@ def _model_observe(m, x, order='fwd_first'):
         th = q.theta_alpha
         idx = [int(i) for i in torch.argmax(th, dim=0).reshape(-1)] if th.dim() > 1 else [int(torch.argmax(th))]
         ev[name] = [int(q.precision[i]) for i in idx]
+        # eval mode: the sampled coefficients of every decision are a one-hot (entries 0/1, exactly one 1 per decision)
+        cols = st.to_arr(th).reshape(th.shape[0], -1)
+        for c_ in range(cols.shape[1]):
+            col = [v for v in cols[:, c_]]
+            if all(not st.is_sym(v) for v in col) and sorted(float(v) for v in col) != [0.0] * (len(col) - 1) + [1.0]:
+                ev[name + '!not_onehot'] = [float(v) for v in col]
     if order == 'summary_first':
         return ev, summ0, exp0
     summ = m.summary()
@@ -608,6 +616,9 @@ def _not_argmax_concrete(alphas, qs, summ):
 
 def _consistent(ev, summ, exp):
     """returns None or a description of the disagreement"""
+    for k_, v_ in ev.items():
+        if k_.endswith('!not_onehot'):
+            return f'eval-mode coefficients of {k_[:-11]} are not a one-hot: {v_}'
     for lname, s in summ.items():
         for key, sk in (('in', 'in_precision'), ('out', 'out_precision'), ('w', 'w_precision')):
             if lname in exp and key in exp[lname] and sk in s and isinstance(s[sk], int):
@@ -622,16 +633,28 @@ def _consistent(ev, summ, exp):
     return None
 
 
+def _soft_checkpoint(wtype, wprec):
+    """state_dict of a twin model saved in training mode after a forward pass (soft sampled coefficients in the theta_alpha buffers)"""
+    twin = _mk_model(wtype, wprec)
+    twin.train()
+    with torch.no_grad():
+        twin(torch.zeros(1, 1, 3, 3))
+    return {k: v.clone() for k, v in twin.state_dict().items()}
+
+
 def _replay_model(rec):
     m = _mk_model(rec.get('wtype', 'layer'), rec.get('wprec', (2, 4, 8)))
     byname = dict(_qtzs(m))
     if rec.get('hist'):
         with torch.no_grad():
             m(torch.zeros(1, 1, 3, 3))
+        if rec.get('hist') == 'restored':
+            # a checkpoint saved in training mode is loaded into the (already evaluated) model before the coefficients move on
+            m.load_state_dict(_soft_checkpoint(rec.get('wtype', 'layer'), rec.get('wprec', (2, 4, 8))))
     with torch.no_grad():
         for name, vals in rec['alphas'].items():
             t = torch.tensor([float(Fraction(v)) for v in vals]).reshape(byname[name].alpha.shape)
-            if rec.get('hist') == 'data':
+            if rec.get('hist') in ('data', 'restored'):
                 byname[name].alpha.data.copy_(t)
             else:
                 byname[name].alpha.copy_(t)
@@ -646,9 +669,13 @@ def _run_model(res, p, selftest):
     m = _mk_model(wtype, wprec)
     qs = _qtzs(m)
 
+    soft_sd = _soft_checkpoint(wtype, wprec) if hist == 'restored' else None       # built natively, outside the dispatch mode
+
     def prefix():
         with torch.no_grad():
             m(torch.zeros(1, 1, 3, 3))
+        if hist == 'restored':
+            m.load_state_dict(soft_sd)
 
     def fn(ex):
         with SymMode():
@@ -660,7 +687,7 @@ def _run_model(res, p, selftest):
                 sy[name] = a
             saved = [(q, q.theta_alpha) for _, q in qs]
             try:
-                with (st.written_params(pairs, prefix, hist) if hist else st.swapped_params(pairs)):
+                with (st.written_params(pairs, prefix, 'data' if hist == 'restored' else hist) if hist else st.swapped_params(pairs)):
                     ev, summ, exp = _model_observe(m, torch.zeros(1, 1, 3, 3), order)
             finally:
                 for q, th in saved:
